@@ -110,6 +110,11 @@ static void check_dump(tcase *c, int fd) {
 			ic_buf_put(&exp, "\n", 1);
 		}
 		if (rc != 0) vh_violation("dump-rc", "mtbl_dump variant %d exited with status %d", vi, rc);
+		else if (!var[vi].hex) {
+			/* the quoting of the default format is not part of the statement (and is ambiguous for backslashes): only the number of entries is judged */
+			size_t ln = 0, le = 0; for (size_t q = 0; q < outlen; q++) ln += out[q] == '\n'; for (size_t q = 0; q < exp.n; q++) le += exp.p[q] == '\n';
+			if (ln != le) vh_violation("dump", "mtbl_dump (default format) prints %zu lines for %zu entries", ln, le);
+		}
 		else if (outlen != exp.n || memcmp(out, exp.p, outlen)) vh_violation("dump", "mtbl_dump output (variant %d: hex=%d kprefix=%zu vprefix=%zu K=%zu V=%zu) is %zu bytes, expected %zu bytes (first difference at %zu)", vi, var[vi].hex, var[vi].kpl, var[vi].vpl, var[vi].K, var[vi].V, outlen, exp.n, ({ size_t d = 0; while (d < outlen && d < exp.n && out[d] == exp.p[d]) d++; d; }));
 		free(out); free(exp.p);
 		VH_COUNT("tool_runs", 1); VH_COUNT("transitions", 1);
